@@ -19,6 +19,8 @@ type Session struct {
 	Steps []Step
 	// Tainted: addresses for which the history left the environment assumption EnvOK (value "env")
 	Tainted map[uint32]string
+	// QueryFindings: failures of the query oracles (NodeSubnetsByIPRanges) found by Ask
+	QueryFindings []Finding
 }
 
 func NewSession() *Session { return &Session{W: NewWorld(), Tainted: map[uint32]string{}} }
@@ -55,6 +57,12 @@ func (s *Session) Do(op Op) Step {
 
 func (s *Session) Ask(q Query) {
 	line, impl := s.W.Ask(q)
+	if q.Kind == "nsbr" {
+		if want := ExpectNodeSubnets(ReadMem(s.W.Ipam), s.W.Pools, q.Ranges); want != impl {
+			s.QueryFindings = append(s.QueryFindings, Finding{Sig: "node-subnets-by-ranges-wrong",
+				What: fmt.Sprintf("NodeSubnetsByIPRanges(%s) = %s, the pools holding free addresses of the ranges list %s", rangesLine(q.Ranges), impl, want)})
+		}
+	}
 	b := fmt.Sprintf(`{"q":%q,"arg":%q,"ip":%d,"ranges":%s}`, q.Kind, q.Arg, q.IP, rangesJSON(q.Ranges))
 	s.Src = append(s.Src, b)
 	s.add(line, impl, len(s.Src)-1)
@@ -268,3 +276,61 @@ func StaleEvent(st *Step) bool {
 }
 
 func jsonUnmarshal(s string, v interface{}) error { return json.Unmarshal([]byte(s), v) }
+
+// ExpectNodeSubnets is the oracle of NodeSubnetsByIPRanges written from its contract (C06): no ranges — the node subnets
+// of every pool which still has a free address; otherwise, per range list, the node subnets of the pools holding a free
+// address of the list (none: empty answer), intersected over the lists.  Pools are identified by the address, never by
+// a position in a table.
+func ExpectNodeSubnets(m Mem, pools []PoolInfo, ranges [][][2]uint32) string {
+	subnetsOfFree := func(in func(ip uint32) bool) map[string]bool {
+		set := map[string]bool{}
+		for ip := range m.Free {
+			if !in(ip) {
+				continue
+			}
+			if p := PoolOfIP(pools, ip); p != nil {
+				for _, n := range p.Subnets {
+					set[n.Str] = true
+				}
+			}
+		}
+		return set
+	}
+	render := func(set map[string]bool) string {
+		var l []string
+		for k := range set {
+			l = append(l, k)
+		}
+		sort.Strings(l)
+		return dashJoin(l, "+")
+	}
+	if len(ranges) == 0 {
+		return render(subnetsOfFree(func(uint32) bool { return true }))
+	}
+	var acc map[string]bool
+	for i, l := range ranges {
+		hasFree := false
+		part := subnetsOfFree(func(ip uint32) bool {
+			for _, r := range l {
+				if r[0] <= ip && ip <= r[1] {
+					hasFree = true
+					return true
+				}
+			}
+			return false
+		})
+		if !hasFree {
+			return "-"
+		}
+		if i == 0 {
+			acc = part
+			continue
+		}
+		for k := range acc {
+			if !part[k] {
+				delete(acc, k)
+			}
+		}
+	}
+	return render(acc)
+}
